@@ -45,15 +45,46 @@ type HeapArr struct {
 type Heap struct {
 	slots  map[string]HeapArr
 	famVer map[string]int
+	frames map[string]*frameRec // family -> frame record of its current base version
+	verAlloc map[int]int        // base version -> number of allocations made when it was created
+}
+
+// frameRec: the base version `ver` of a family was created by a call whose callee writes only
+// objects it allocated itself (plus the objects in `except`): for an object that existed at the
+// call, the value is the one in `prev`.
+type frameExc struct {
+	ref *Term
+	fam string // family prefix the exception applies to ("" = any)
+}
+
+type frameRec struct {
+	ver     int
+	wm      *Term // watermark: every object existing at the call is <= wm
+	except  []frameExc
+	fam     string
+	prev    Heap
+	nAtCall int
+}
+
+type callMark struct {
+	nAtCall int
+	wm      *Term
+	wmpost  *Term
 }
 
 func (h Heap) clone() Heap {
-	n := Heap{slots: make(map[string]HeapArr, len(h.slots)), famVer: make(map[string]int, len(h.famVer))}
+	n := Heap{slots: make(map[string]HeapArr, len(h.slots)), famVer: make(map[string]int, len(h.famVer)), frames: make(map[string]*frameRec, len(h.frames)), verAlloc: make(map[int]int, len(h.verAlloc))}
 	for k, v := range h.slots {
 		n.slots[k] = v
 	}
 	for k, v := range h.famVer {
 		n.famVer[k] = v
+	}
+	for k, v := range h.frames {
+		n.frames[k] = v
+	}
+	for k, v := range h.verAlloc {
+		n.verAlloc[k] = v
 	}
 	return n
 }
@@ -158,6 +189,7 @@ type Frame struct {
 	oldHeap Heap // heap at entry (for old() in contracts)
 	params  []Value
 	chain   string // inlining chain "f/g/h" used in obligation names
+	wm, wmpost *Term
 }
 
 type deferred struct {
@@ -179,6 +211,7 @@ type State struct {
 	copies  map[int64]*arrCopy
 	allocTy map[int64]string // allocation ordinal -> type key (for FRAME / messages)
 	trace   []Event          // ghost IO trace
+	marks   []callMark       // allocation watermarks of framed calls on this path
 	dead    bool
 	notes   []string
 	depth   int
@@ -194,6 +227,7 @@ func (s *State) fork() *State {
 	n := &State{pc: append([]*Term(nil), s.pc...), heap: s.heap.clone(), nalloc: new(int), copies: s.copies, allocTy: s.allocTy, depth: s.depth}
 	*n.nalloc = *s.nalloc
 	n.trace = append([]Event(nil), s.trace...)
+	n.marks = append([]callMark(nil), s.marks...)
 	n.notes = s.notes
 	n.frames = make([]*Frame, len(s.frames))
 	for i, f := range s.frames {
@@ -250,6 +284,20 @@ func (s *State) assume(t *Term) {
 	s.pc = append(s.pc, t)
 }
 
+// allocTop: a term that bounds every object allocated so far on this path.
+func (s *State) allocTop() *Term {
+	last := int(initAllocBoundary)
+	var base *Term = Sym("ALLOC0", SInt)
+	if n := len(s.marks); n > 0 {
+		last = s.marks[n-1].nAtCall
+		base = s.marks[n-1].wmpost
+	}
+	if *s.nalloc > last {
+		return Alloc(*s.nalloc - 1)
+	}
+	return base
+}
+
 func (s *State) newAlloc(ty string) *Term {
 	n := *s.nalloc
 	*s.nalloc = n + 1
@@ -298,20 +346,12 @@ func (s *State) selectIn(heap Heap, slot string, sort Sort, addr []*Term) *Term 
 	for n := h.stores; ; n = n.next {
 		if n == nil {
 			// reached base
-			if h.ver == 0 && len(addr) > 0 && isFreshRef(addr[0]) {
-				if addr[0].K == KAlloc {
-					if cp, ok := s.copies[addr[0].I]; ok && len(addr) == 2 && strings.HasPrefix(slot, "elem(") {
-						inner := s.selectIn(cp.heap, slot, sort, []*Term{cp.arr, Add(cp.off, addr[1])})
-						base = Ite(And(Le(Zero, addr[1]), Lt(addr[1], cp.oldlen)), inner, zeroOf(sort))
-						break
-					}
-				}
-				base = zeroOf(sort)
-			} else if len(addr) > 0 && addr[0] == Zero && (strings.HasPrefix(slot, "mapdom(") || strings.HasPrefix(slot, "mapval(") || strings.HasPrefix(slot, "maplen(")) {
-				base = zeroOf(sort)
-			} else {
-				base = App(heapBaseName(h.ver, slot), sort, addr...)
+			fam := slotFamily(slot)
+			if rec := heap.frames[fam]; rec != nil && rec.ver == h.ver {
+				base = s.framedBase(heap, rec, h, slot, sort, addr)
+				break
 			}
+			base = s.plainBase(heap, h, slot, sort, addr)
 			break
 		}
 		c := addrEq(n.addr, addr)
@@ -345,8 +385,102 @@ func (s *State) sto(slot string, addr []*Term, val *Term) {
 	s.heap.slots[slot] = h
 }
 
+// plainBase: value of slot(addr) when no store of the chain matches and no frame applies.
+func (s *State) plainBase(heap Heap, h HeapArr, slot string, sort Sort, addr []*Term) *Term {
+	freshAfter := len(addr) > 0 && addr[0].K == KAlloc && isFreshRef(addr[0]) && (h.ver == 0 || (heap.verAlloc[h.ver] > 0 && int(addr[0].I) >= heap.verAlloc[h.ver]))
+	if freshAfter {
+		// object allocated after this base version was created: never written below this point
+		if cp, ok := s.copies[addr[0].I]; ok && len(addr) == 2 && strings.HasPrefix(slot, "elem(") {
+			inner := s.selectIn(cp.heap, slot, sort, []*Term{cp.arr, Add(cp.off, addr[1])})
+			return Ite(And(Le(Zero, addr[1]), Lt(addr[1], cp.oldlen)), inner, zeroOf(sort))
+		}
+		return zeroOf(sort)
+	}
+	if len(addr) > 0 && addr[0] == Zero && (strings.HasPrefix(slot, "mapdom(") || strings.HasPrefix(slot, "mapval(") || strings.HasPrefix(slot, "maplen(")) {
+		return zeroOf(sort)
+	}
+	return App(heapBaseName(h.ver, slot), sort, addr...)
+}
+
+// framedBase: value of slot(addr) at the base of a framed version.
+func (s *State) framedBase(heap Heap, rec *frameRec, h HeapArr, slot string, sort Sort, addr []*Term) *Term {
+	var existed *Term
+	if len(addr) == 0 {
+		existed = True
+	} else {
+		existed = existedAt(addr[0], rec)
+	}
+	if existed == False {
+		return s.plainBase(heap, h, slot, sort, addr)
+	}
+	prev := s.selectIn(rec.prev, slot, sort, addr)
+	if existed == True {
+		return prev
+	}
+	return Ite(existed, prev, s.plainBase(heap, h, slot, sort, addr))
+}
+
+// existedAt: did object a exist when the framed call was made (and is it not an exception)?
+func existedAt(a *Term, rec *frameRec) *Term {
+	var c *Term
+	switch {
+	case a.isOp("ite"):
+		return Ite(a.Args[0], existedAt(a.Args[1], rec), existedAt(a.Args[2], rec))
+	case a.K == KInt && a.I == 0:
+		c = True
+	case a.K == KAlloc:
+		c = Bool(int(a.I) < rec.nAtCall)
+	case a.K == KPlace || a.K == KFunc:
+		c = False
+	case isOldRef(a):
+		c = True
+	default:
+		c = Le(a, rec.wm)
+	}
+	if c == False {
+		return False
+	}
+	var cs []*Term
+	cs = append(cs, c)
+	for _, ex := range rec.except {
+		if ex.fam != "" && !strings.HasPrefix(rec.fam, ex.fam) {
+			continue // the excepted object has no slots in this family
+		}
+		cs = append(cs, Ne(a, ex.ref))
+	}
+	return And(cs...)
+}
+
+// havocFamilyFramed: new base version with a "callee writes only its own fresh objects" frame.
+func (s *State) havocFamilyFramed(fam string, ver int, wm *Term, except []frameExc, prev Heap) {
+	s.havocFamily(fam, ver)
+	s.heap.frames[fam] = &frameRec{ver: ver, wm: wm, except: except, prev: prev, nAtCall: *s.nalloc, fam: fam}
+}
+
+// havocFamilyEntryFramed: loop havoc inside a function that writes only its own fresh objects
+// (plus exceptions): objects that existed at function entry keep their value.
+func (s *State) havocFamilyEntryFramed(fam string, ver int, except []frameExc, prev Heap) {
+	s.havocFamily(fam, ver)
+	s.heap.frames[fam] = &frameRec{ver: ver, wm: Sym("ALLOC0", SInt), except: except, prev: prev, nAtCall: int(initAllocBoundary), fam: fam}
+}
+
+// excFor: a frame exception for an object of static type t.
+func (e *Engine) excFor(ref *Term, t types.Type) frameExc {
+	switch u := t.Underlying().(type) {
+	case *types.Map:
+		return frameExc{ref, "map(" + e.typeKey(u) + ")"}
+	case *types.Pointer:
+		if _, ok := u.Elem().Underlying().(*types.Struct); ok {
+			return frameExc{ref, e.typeKey(u.Elem()) + "."}
+		}
+	}
+	return frameExc{ref, ""}
+}
+
 // havocFamily forgets everything known about a slot family: a new base version.
 func (s *State) havocFamily(fam string, ver int) {
+	delete(s.heap.frames, fam)
+	s.heap.verAlloc[ver] = *s.nalloc
 	s.heap.famVer[fam] = ver
 	for k := range s.heap.slots {
 		if slotFamily(k) == fam {
@@ -392,6 +526,8 @@ type Engine struct {
 	vacuity   []vacuityProbe
 	onReturn  func(fn *ssa.Function, r pathResult)
 	onExit    func(fn *ssa.Function, s *State)
+	curFramed bool
+	curExcept []frameExc
 }
 
 type funcVal struct {
